@@ -82,6 +82,12 @@ def make_model(rng, big=False):
     if M.num_binary_variables == 0:
         raise Expected()
     permuted = False
+    if rng.random() < 0.2:
+        # a conversion on the same object before the relabelling below: nothing of it may be remembered
+        try:
+            getattr(M, rng.choice(["to_qubo", "to_quso"]))()
+        except Exception:   # noqa -- reported by the monitored call later if it is real
+            pass
     if rng.random() < 0.35:
         vs = list(M.mapping)
         perm = list(range(len(vs)))
